@@ -78,7 +78,13 @@ CROSS_TEXTS = [('en-us', 'add 3kg of flour'), ('en-us', 'she is 20yo and owes $5
                ('en-us', '-7 degrees celsius and 12 years old'), ('en-us', 'half a dozen eggs cost 3 bucks'), ('zh-cn', '三点五公斤和百分之二十'), ('zh-cn', '他今年20岁，有五十块钱'),
                ('zh-cn', '明天下午3点气温30度'), ('fr-fr', '3kg de farine et 20% de 12 euros'), ('fr-fr', 'il a 20 ans et mesure 1,80 m'), ('es-es', '3kg de harina y 20% de 12 euros'),
                ('es-es', 'tiene 20 años y mide 1,80 m'), ('pt-br', '3kg de farinha e 20% de 12 reais'), ('nl-nl', '3kg meel en 20% van 12 euro'), ('de-de', '3kg Mehl und 20% von 12 Euro'),
-               ('it-it', '3kg di farina e 20% di 12 euro'), ('pt-br', 'ele tem 20 anos e 1,80 m')]
+               ('it-it', '3kg di farina e 20% di 12 euro'), ('pt-br', 'ele tem 20 anos e 1,80 m'),
+               # two cultures that share their configuration classes (es-es / es-mx) with numerals whose marks differ
+               ('es-mx', 'tiene 20 años y mide 1.80 m'), ('es-es', '3,5 kg de harina y 1.234 euros'), ('es-mx', '3.5 kg de harina y 1,234 pesos'), ('es-mx', '3kg de harina y 20% de 12 pesos')]
+MULTI_REF = [('en-us', 'black friday'), ('en-us', 'thanksgiving'), ('en-us', 'easter'), ('en-us', 'the first monday of september'), ('en-us', 'next friday at 3pm'),
+             ('en-us', 'february 29'), ('en-us', 'labor day'), ('en-us', 'mothers day'), ('es-es', 'viernes negro'), ('es-es', 'pascuas'), ('es-es', 'el día del padre'),
+             ('nl-nl', 'black friday'), ('it-it', 'giorno della memoria'), ('fr-fr', 'pâques'), ('de-de', 'ostern'), ('pt-br', 'páscoa'), ('zh-cn', '春节'), ('zh-cn', '母亲节'),
+             ('en-us', 'cyber monday'), ('en-us', 'this weekend')]
 VCLOCKS = [dt.datetime(1971, 2, 4, 3, 0), dt.datetime(2016, 2, 29, 12, 0), dt.datetime(2093, 12, 31, 23, 30)]
 
 
@@ -111,7 +117,11 @@ def build_pool(seed, tier):
     bykind = collections.defaultdict(list)
     for c in cand:
         bykind[(c[0], c[1])].append(c)
+    # (kind, culture) pairs that exist as registered models (not only those with Specs files)
     bykind_all = set(bykind)
+    for rn_, mt_, cu_ in lib.registered():
+        if mt_ in SPEC_KIND:
+            bykind_all.add((SPEC_KIND[mt_], cu_))
     cells = sorted(bykind)
     while len(pool) < n_corpus and cells:
         for cell in list(cells):
@@ -126,11 +136,17 @@ def build_pool(seed, tier):
         pool.append([k, cu, opt, q, '2016-11-07T10:30:00' if k == 'datetime' else None])
     # the SAME text sent to every model kind of its culture (state shared between recognisers: extractors, parsers and
     # configuration objects of one package are reused by the models of another)
-    cross = CROSS_TEXTS if tier == 'thorough' else CROSS_TEXTS[::2]
+    cross = CROSS_TEXTS if tier == 'thorough' else CROSS_TEXTS[::2] + CROSS_TEXTS[-4:]
     for cu, q in cross:
         for kind in ('number', 'ordinal', 'percentage', 'currency', 'dimension', 'temperature', 'age', 'datetime'):
             if (kind, cu) in bykind_all:
                 pool.append([kind, cu, 0, q, '2016-11-07T10:30:00' if kind == 'datetime' else None])
+    # the SAME date-time query under several reference dates (a value computed for one reference must not be remembered
+    # for the next): holidays, relative and year-less expressions
+    multi_ref = MULTI_REF if tier == 'thorough' else MULTI_REF[::2]
+    for cu, q in multi_ref:
+        for ref in ('2016-11-07T10:30:00', '2017-11-07T00:00:00', '2019-03-01T12:00:00', '2020-02-29T23:59:59'):
+            pool.append(['datetime', cu, 0, q, ref])
     seen, out = set(), []
     for t in pool:
         key = json.dumps(t, ensure_ascii=False)
